@@ -291,6 +291,12 @@ macro_rules! impl_fieldlike {
                     use ark_serialize::{CanonicalDeserialize, CanonicalDeserializeWithFlags, Compress, EmptyFlags, Validate};
                     v.push(ParseF { name: "deserialize_compressed", exact: false, f: |s| <$F>::deserialize_compressed(s).ok() });
                     v.push(ParseF { name: "deserialize_uncompressed", exact: false, f: |s| <$F>::deserialize_uncompressed(s).ok() });
+                    v.push(ParseF { name: "deserialize_compressed (reader delivering 1..7 bytes per read)", exact: false, f: |s| <$F>::deserialize_compressed(Trickle { data: s, pos: 0, step: 1 + s.len() % 7 }).ok() });
+                    v.push(ParseF { name: "deserialize_with_flags::<EmptyFlags> (chained readers)", exact: false, f: |s| {
+                        use ark_std::io::Read;
+                        let cut = s.len() / 3;
+                        <$F>::deserialize_with_flags::<_, EmptyFlags>((&s[..cut]).chain(&s[cut..])).ok().map(|x| x.0)
+                    } });
                     v.push(ParseF { name: "deserialize_compressed_unchecked", exact: false, f: |s| <$F>::deserialize_compressed_unchecked(s).ok() });
                     v.push(ParseF { name: "deserialize_with_mode(No,No)", exact: false, f: |s| <$F>::deserialize_with_mode(s, Compress::No, Validate::No).ok() });
                     v.push(ParseF { name: "deserialize_with_flags::<EmptyFlags>", exact: false, f: |s| <$F>::deserialize_with_flags::<_, EmptyFlags>(s).ok().map(|x| x.0) });
@@ -379,3 +385,18 @@ impl<T: FieldLike + ark_ff::PrimeField> FL for T {}
 pub trait FL: FieldLike {}
 #[cfg(feature = "min")]
 impl<T: FieldLike> FL for T {}
+
+/// a reader that hands out its data a few bytes per `read` call
+pub struct Trickle<'a> {
+    pub data: &'a [u8],
+    pub pos: usize,
+    pub step: usize,
+}
+impl<'a> std::io::Read for Trickle<'a> {
+    fn read(&mut self, buf: &mut [u8]) -> std::io::Result<usize> {
+        let n = buf.len().min(self.step).min(self.data.len() - self.pos);
+        buf[..n].copy_from_slice(&self.data[self.pos..self.pos + n]);
+        self.pos += n;
+        Ok(n)
+    }
+}
